@@ -1172,8 +1172,8 @@ fn run_inner(args: &Args, out: &mut Out) {
                 out.case(&line, &obs, &orc);
                 continue;
             }
-            if f.len() == 5 && f[0] == "C10.fmt" {
-                let (obs, orc) = emitx::run_fmt(f[1], f[2], f[3], f[4], &mut hist);
+            if (f.len() == 5 || f.len() == 6) && f[0] == "C10.fmt" {
+                let (obs, orc) = emitx::run_fmt(f[1], f[2], f[3], f[4], f.get(5).copied(), &mut hist);
                 out.case(&line, &obs, &orc);
                 continue;
             }
